@@ -19,9 +19,10 @@ import (
 // Governance drives proposals through every lifecycle branch: pass, fail by
 // votes, cancel, miss the funding goal, expire in voting, config update.
 type Governance struct {
-	n     int
-	props []*prop
-	Tag   string
+	n         int
+	props     []*prop
+	Tag       string
+	Strangers bool // outsiders send expire/finalize transactions at any time; late-comers vote
 }
 
 type prop struct {
@@ -162,6 +163,28 @@ func (g *Governance) Plan(c *Ctx) []hist.TxSpec {
 			continue
 		}
 		age := c.H - p.created
+		if g.Strangers && c.R.Intn(4) == 0 {
+			// an arbitrary account tries to expire / finalise the proposal, whatever its phase
+			u := us[c.R.Intn(len(us))]
+			if c.R.Intn(2) == 0 {
+				sp := BuildFee(c, "EXPIRE_VOTES", &govact.ExpireVotes{ProposalID: governance.ProposalID(p.id), ValidatorAddress: u.Addr}, txb.Fee("1000000000", 400000), "expire by an outsider ("+store+")", u)
+				sp.Meta = map[string]string{"proposal": p.id}
+				out = append(out, sp)
+			} else {
+				sp := BuildFee(c, "PROPOSAL_FINALIZE", &govact.FinalizeProposal{ProposalID: governance.ProposalID(p.id), ValidatorAddress: u.Addr}, txb.Fee("1000000000", 400000), "finalize by an outsider ("+store+")", u)
+				sp.Meta = map[string]string{"proposal": p.id}
+				out = append(out, sp)
+			}
+		}
+		if g.Strangers && store == "propActive" && rec.Status == int(governance.ProposalStatusVoting) && c.R.Intn(5) == 0 {
+			// a validator that was not in the snapshot (staked later) tries to vote
+			for _, v := range c.W.Vals {
+				if !v.InGenesis {
+					out = append(out, g.vote(c, p, v, governance.OPIN_POSITIVE))
+					break
+				}
+			}
+		}
 		switch p.plan {
 		case "pass", "fail", "config", "expire":
 			if store == "propActive" && rec.Status == int(governance.ProposalStatusFunding) {
